@@ -275,7 +275,7 @@ func judgeC19Query(sc *SrvScenario, q *QRec, res *core.Result) {
 	}
 	if len(q.Logged) != 1 {
 		bad("logger-calls", len(q.Logged))
-	} else if d := diffResponses(q.Logged[0], m, false); d != "" {
+	} else if d := diffResponses(q.Logged[0], m, false, false); d != "" {
 		bad("logged-message-differs", d)
 	}
 	if q.LogFailed != 0 {
